@@ -98,6 +98,10 @@ const (
 	X%[2]d E%[2]d = iota
 	Y%[2]d
 )
+
+func (E%[2]d) String() string { return "" }
+
+var S%[2]d T%[2]d
 `, name, k)
 }
 
@@ -134,7 +138,7 @@ func useDecls(t *rapid.T, local string, k int, u *int) []string {
 	for i := 0; i < n; i++ {
 		*u++
 		id := *u
-		kind := rapid.IntRange(0, 15).Draw(t, "use")
+		kind := rapid.IntRange(0, 18).Draw(t, "use")
 		if i == 0 && kind == 7 {
 			kind = 0 // the first use must really use the package (else: imported and not used)
 		}
@@ -174,6 +178,12 @@ func useDecls(t *rapid.T, local string, k int, u *int) []string {
 			out = append(out, fmt.Sprintf("func u%d() string {\n\treturn %s(\n\t\t%s,\n\t)\n}", id, q(local, fmt.Sprintf("G%d", k)), q(local, fmt.Sprintf("C%d", k))))
 		case 14:
 			out = append(out, fmt.Sprintf("var u%d = []interface{}{\n\t%s,\n\t%s,\n}", id, q(local, fmt.Sprintf("F%d", k)), q(local, fmt.Sprintf("V%d", k))))
+		case 16:
+			// a package-level variable / constant as the operand of a selector
+			out = append(out, fmt.Sprintf("var u%d = %s.A + %s.M() + len(%s.String())", id, q(local, fmt.Sprintf("S%d", k)), q(local, fmt.Sprintf("S%d", k)), q(local, fmt.Sprintf("X%d", k))))
+		case 17:
+			// method expression and method value on a package-level type / variable
+			out = append(out, fmt.Sprintf("var u%d, v%d = %s.M, %s.M", id, id, q(local, fmt.Sprintf("T%d", k)), q(local, fmt.Sprintf("S%d", k))))
 		case 12:
 			out = append(out, fmt.Sprintf("func u%d[P %s](p P) int {\n\treturn p.M()\n}", id, q(local, fmt.Sprintf("I%d", k))))
 		default:
@@ -409,3 +419,27 @@ func (p *Prog) RootSources(pkgPath string) map[string]string {
 
 // StripVendor is the reference implementation of vendor-prefix removal used by the oracles.
 func StripVendor(path string) string { return stripVendorPath(path) }
+
+// Requote rewrites some import paths of a generated source as raw string literals or with an
+// escape sequence inside the interpreted string: both are legal Go and gofmt keeps them.
+func Requote(t *rapid.T, libs []Lib, src string) (string, bool) {
+	changed := false
+	for _, l := range libs {
+		old := "\"" + l.ImportPath + "\""
+		if !strings.Contains(src, old) {
+			continue
+		}
+		switch rapid.IntRange(0, 3).Draw(t, "requote") {
+		case 0:
+			src = strings.Replace(src, old, "`"+l.ImportPath+"`", 1)
+			changed = true
+		case 1:
+			if i := strings.IndexAny(l.ImportPath, "/."); i >= 0 {
+				esc := fmt.Sprintf("\\x%02x", l.ImportPath[i])
+				src = strings.Replace(src, old, "\""+l.ImportPath[:i]+esc+l.ImportPath[i+1:]+"\"", 1)
+				changed = true
+			}
+		}
+	}
+	return src, changed
+}
